@@ -61,7 +61,7 @@ var adminTypes = []adminType{
 		return &ct.MsgUpdateTokenController{From: f, NewTokenController: Acct((v + 5) % NAccounts)}
 	}},
 	{"UpdateMaxMessageBodySize", "owner", func(s *State, f string, v int) sdk.Msg {
-		return &ct.MsgUpdateMaxMessageBodySize{From: f, MessageSize: []uint64{0, 1, 131, 132, 133, 8000, 1 << 40, uint64(4000 + v)}[v%8]}
+		return &ct.MsgUpdateMaxMessageBodySize{From: f, MessageSize: []uint64{0, 1, 131, 132, 133, 8000, 1 << 40, uint64(4000 + v), 1 << 63, ^uint64(0)}[v%10]}
 	}},
 	{"AddRemoteTokenMessenger", "owner", func(s *State, f string, v int) sdk.Msg {
 		for _, d := range []uint32{77, 78, 79, 80, 81, 82, 83} {
@@ -207,6 +207,47 @@ func runC10(rc *RunCtx) {
 		}
 	}
 	rc.Cov.Extra["exhaustive"] = true
+	// roles that genesis leaves blank have no holder at all: every privileged request of every account is refused,
+	// whichever subset of the four roles is blank (the owner, when there is one, holds only the owner role)
+	for blank := 1; blank < 16; blank++ {
+		if blank%rc.NShards != rc.Shard {
+			continue
+		}
+		e, err := StdEngine(rc, false, false, func(gs *ct.GenesisState, cfg *chain.Config) {
+			if blank&1 != 0 {
+				gs.Owner = ""
+			}
+			if blank&2 != 0 {
+				gs.AttesterManager = ""
+			}
+			if blank&4 != 0 {
+				gs.Pauser = ""
+			}
+			if blank&8 != 0 {
+				gs.TokenController = ""
+			}
+		})
+		if err != nil {
+			rc.Cov.Inconclusive("c10 blank-role chain: " + err.Error())
+			continue
+		}
+		for ti, at := range adminTypes {
+			holder := map[string]string{"owner": e.M.Owner, "am": e.M.AM, "pauser": e.M.Pauser, "tc": e.M.TC, "pending": e.M.Pending}[at.Role]
+			if holder != "" {
+				continue
+			}
+			for fi, from := range []string{S, Acct(OwnerIx), Acct(AMIx), Nobody()} {
+				tx := Tx{Msgs: msgs1(at.Make(e.M, from, ti+fi)), Note: fmt.Sprintf("C10 %s while the %s role is blank (blank mask %04b)", at.Name, at.Role, blank)}
+				r := e.Exec(tx)
+				rc.Cov.Assert("C10.blank-role-has-no-holder")
+				rc.Cov.Cell("C10_blank_roles", fmt.Sprintf("%s/blank=%04b/%v", at.Name, blank, map[bool]string{true: "ok", false: "fail"}[r.OK]))
+				if r.OK {
+					e.viol([]string{"C10"}, "authorisation-oracle", fmt.Sprintf("C10:%s:role=%s:blank:ok", at.Name, at.Role),
+						fmt.Sprintf("%s succeeded although the %s role has no holder", at.Name, at.Role), e.caseOf(&tx, ""))
+				}
+			}
+		}
+	}
 	// previous holder immediately after each kind of role update; and an upper-case spelled outsider
 	if rc.Shard == 0 {
 		for ui := 0; ui < 5; ui++ {
@@ -463,6 +504,52 @@ func runC11(rc *RunCtx) {
 	rc.Cov.Extra["exhaustive"] = true
 	rc.Cov.Sample(map[string]interface{}{"universe_accounts": U, "state_shape": "(owner, pending|none, attester manager, pauser, token controller)",
 		"actions_per_state": "every role transaction x every submitter x every new holder, accept by every account, one representative of the other 20 types"})
+	// lifecycle starts in which genesis leaves some roles without a holder: they stay blank (queries, export) until the
+	// owner - if there is one - assigns them; the same closure of role transactions is applied from each such start
+	for blank := 1; blank < 16; blank++ {
+		if blank%rc.NShards != rc.Shard {
+			continue
+		}
+		e, err := StdEngine(rc, false, false, func(gs *ct.GenesisState, cfg *chain.Config) {
+			gs.Owner, gs.AttesterManager, gs.Pauser, gs.TokenController = Acct(0), Acct(1), Acct(2), Acct(1)
+			if blank&1 != 0 {
+				gs.Owner = ""
+			}
+			if blank&2 != 0 {
+				gs.AttesterManager = ""
+			}
+			if blank&4 != 0 {
+				gs.Pauser = ""
+			}
+			if blank&8 != 0 {
+				gs.TokenController = ""
+			}
+		})
+		if err != nil {
+			rc.Cov.Inconclusive("c11 blank-role chain: " + err.Error())
+			continue
+		}
+		e.LightQueries = true
+		rc.Cov.Cell("C11_blank_starts", fmt.Sprintf("%04b", blank))
+		step := func(m sdk.Msg, kind string) {
+			r := e.Exec(Tx{Msgs: msgs1(m), Note: fmt.Sprintf("C11 closure from a start with blank roles (mask %04b)", blank)})
+			rc.Cov.Cell("C11_transitions", "blank-start:"+kind+"/"+map[bool]string{true: "ok", false: "fail"}[r.OK])
+		}
+		// refused requests first, so that the genesis roles are compared with the queries and the export untouched
+		step(&ct.MsgAcceptOwner{From: Acct(2)}, "AcceptOwner")
+		if _, _, _, err := e.ExportImport(); err != nil {
+			rc.Cov.Inconclusive("export/import: " + err.Error())
+		}
+		for sb := 0; sb < 3; sb++ {
+			step(&ct.MsgAcceptOwner{From: Acct(sb)}, "AcceptOwner")
+			for n := 0; n < 3; n++ {
+				step(&ct.MsgUpdateAttesterManager{From: Acct(sb), NewAttesterManager: Acct(n)}, "UpdateAttesterManager")
+				step(&ct.MsgUpdatePauser{From: Acct(sb), NewPauser: Acct(n)}, "UpdatePauser")
+				step(&ct.MsgUpdateTokenController{From: Acct(sb), NewTokenController: Acct(n)}, "UpdateTokenController")
+				step(&ct.MsgUpdateOwner{From: Acct(sb), NewOwner: Acct(n)}, "UpdateOwner")
+			}
+		}
+	}
 	ProbeHistory(rc, rc.Pick(240, 900), false)
 	// multi-step random walks (supersession, replayed accept)
 	for w := 0; w < rc.Pick(1, 4); w++ {
@@ -490,7 +577,8 @@ func runC11(rc *RunCtx) {
 
 // ---------------------------------------------------------------- C12 matrix
 
-var c12Flows = []string{"send", "send-with-caller", "deposit", "deposit-with-caller", "replace", "replace-deposit", "receive-other", "receive-mint", "receive-other-long", "send-long", "receive-near-module", "send-to-messenger", "send-with-caller-to-messenger", "replace-to-messenger"}
+var c12Flows = []string{"send", "send-with-caller", "deposit", "deposit-with-caller", "replace", "replace-deposit", "receive-other", "receive-mint", "receive-other-long", "send-long", "receive-near-module", "send-to-messenger", "send-with-caller-to-messenger", "replace-to-messenger",
+	"replace-deposit-same-recipient", "replace-deposit-unchanged", "replace-unchanged"}
 
 func runC12(rc *RunCtx) {
 	nonce := uint64(50000)
@@ -542,6 +630,12 @@ func runC12(rc *RunCtx) {
 				m = pg.Replacement("own-message")
 			case "replace-deposit":
 				m = pg.Replacement("own-deposit")
+			case "replace-deposit-same-recipient":
+				m = pg.Replacement("own-deposit-same-recipient")
+			case "replace-deposit-unchanged":
+				m = pg.Replacement("own-deposit-unchanged")
+			case "replace-unchanged":
+				m = pg.Replacement("own-message-unchanged")
 			case "receive-other":
 				nonce++
 				in := &InMsg{Version: 0, Src: 1, Dst: 4, Nonce: nonce, Sender: Structured32(1), Recipient: Structured32(2), Caller: make([]byte, 32), Body: []byte("hi")}
@@ -587,7 +681,7 @@ func runC12(rc *RunCtx) {
 			}
 			sr, bm := e.M.PausedSR, e.M.PausedBM
 			r := e.Exec(Tx{Msgs: msgs1(m), Note: "C12 " + name + " " + phase})
-			blocked := sr || (bm && (strings.HasPrefix(name, "deposit") || name == "replace-deposit" || name == "receive-mint"))
+			blocked := sr || (bm && (strings.HasPrefix(name, "deposit") || strings.HasPrefix(name, "replace-deposit") || name == "receive-mint"))
 			rc.Cov.Assert("C12.pause-matrix")
 			rc.Cov.Cell("C12_matrix", fmt.Sprintf("sr=%v,bm=%v/%s/%s/%v", sr, bm, name, phase, map[bool]string{true: "ok", false: "fail"}[r.OK]))
 			rc.Cov.Distinct(fmt.Sprintf("c12|%v|%v|%s|%s|%v", sr, bm, name, phase, r.OK))
@@ -766,6 +860,23 @@ func runC13(rc *RunCtx) {
 					r2 := en.Exec(Tx{Msgs: msgs1(&ct.MsgDisableAttester{From: am, Attester: pre}), Note: "C13 disable the prefix-identifier again"})
 					rc.Cov.Cell("C13_transitions", fmt.Sprintf("prefix-identifier/enable=%v/disable=%v", r1.OK, r2.OK))
 				}
+			}
+			// identifiers longer than a full 0x-prefixed key: an extension of an enabled spelling names a different (unknown)
+			// entry, and two long identifiers that agree on their first 132 characters are different entries
+			full := AttesterPool[keys[0]].Spell(keys[0] % 4)
+			step(&ct.MsgDisableAttester{From: am, Attester: full + "02"}, "disable-extension-of-enabled")
+			if en := mk(); en != nil {
+				long := AttesterPool[keys[0]].Spell(0)
+				for st := 0; st < 4; st++ {
+					if sp := AttesterPool[keys[0]].Spell(st); len(sp) == 132 {
+						long = sp
+					}
+				}
+				r1 := en.Exec(Tx{Msgs: msgs1(&ct.MsgEnableAttester{From: am, Attester: long + "01"}), Note: "C13 enable a long identifier"})
+				r2 := en.Exec(Tx{Msgs: msgs1(&ct.MsgDisableAttester{From: am, Attester: long + "02"}), Note: "C13 disable an unknown identifier sharing 132 leading characters with an enabled one"})
+				r3 := en.Exec(Tx{Msgs: msgs1(&ct.MsgEnableAttester{From: am, Attester: long + "02"}), Note: "C13 enable the second long identifier"})
+				r4 := en.Exec(Tx{Msgs: msgs1(&ct.MsgDisableAttester{From: am, Attester: long + "01"}), Note: "C13 disable the first long identifier"})
+				rc.Cov.Cell("C13_transitions", fmt.Sprintf("long-identifier-siblings/enable=%v/disable-sibling=%v/enable-sibling=%v/disable=%v", r1.OK, r2.OK, r3.OK, r4.OK))
 			}
 			for nt := 0; nt <= len(keys)+2; nt++ {
 				step(&ct.MsgUpdateSignatureThreshold{From: am, Amount: uint32(nt)}, "set-threshold")
